@@ -1,0 +1,205 @@
+//go:build verif
+
+// Round 4, area C: nsqd's nsqlookupd side (C16) - lookupdHTTPAddrs, newLookupPeer, lookupPeer.String, connectCallback and its
+// closure, lookupLoop. Checked by nsqvc. Comment-only file. New names carry the prefix r4C.
+
+package nsqd
+
+// ---------------------------------------------------------------------------------------------
+// n.lookupPeers (an atomic.Value). Rely/guarantee on the cell: every Store into the lookupPeers cell of an NSQD stores a
+// []*lookupPeer without nil entries (obligation at the Store in lookupLoop; nsqd.New stores an empty slice), so every Load
+// from such a cell yields nil (nothing stored yet) or such a slice (assumed at the Load). The other atomic.Value cells of
+// nsqd (opts, errValue) are not constrained.
+//@ pred r4CPeersCell(v *sync/atomic.Value) := exists n *NSQD :: {&n.lookupPeers} v == &n.lookupPeers
+//@ pred r4CPeersBox(r any) := r == nil || (dyntype(r) == typetag("[]*lookupPeer") &&
+//@      (forall k int :: {unbox(r, "[]*lookupPeer")[k]} 0 <= k && k < len(unbox(r, "[]*lookupPeer")) ==> unbox(r, "[]*lookupPeer")[k] != nil))
+//@ ghost[free] r4CLoaded any
+//@ extern[in github.com/nsqio/nsq/nsqd] (*sync/atomic.Value).Load(v) (r)
+//@   ensures[peers-cell-holds-peers] r4CPeersCell(v) ==> r4CPeersBox(r)
+//@   modifies r4CLoaded
+//@   onreturn r4CLoaded := r
+
+// Store: the guarantee side of the cell invariant (an obligation at n.lookupPeers.Store(..) in lookupLoop); storing has no other effect.
+//@ extern[in github.com/nsqio/nsq/nsqd] (*sync/atomic.Value).Store(v, x)
+//@   requires[peers-cell-gets-peers] r4CPeersCell(v) ==> r4CPeersBox(x) && x != nil
+//@   modifies
+
+// lookupdHTTPAddrs (was a trusted stub). From C16: "A topic first created on an nsqd starts with every non-ephemeral channel
+// its nsqlookupds already know for it": GetTopic asks the addresses returned here, so the list must name EVERY lookup peer
+// whose IDENTIFY reply is known (Info.BroadcastAddress non-empty) - whatever the state of the TCP connection to it (a peer
+// that is reconnecting still answers HTTP) - and nothing else, in the order of the peers.
+//   r4CPeers(x)  = the peer list held in the boxed value x;  r4CKnown(lp) = the peer's IDENTIFY info is known;
+//   r4CAddr(lp)  = BroadcastAddress:HTTPPort of the peer.
+//@ pred r4CKnown(lp *lookupPeer) := len(lp.Info.BroadcastAddress) > 0
+//@ fn r4CAddr(lp *lookupPeer) string := r4CHostPort(lp.Info.BroadcastAddress, r4CItoa(lp.Info.HTTPPort))
+//@ pred r4CListed(lst []string, lp *lookupPeer) := exists j int :: {lst[j]} 0 <= j && j < len(lst) && lst[j] == r4CAddr(lp)
+//@ func (n *NSQD) lookupdHTTPAddrs() []string
+//@   props C16
+//@   nochan
+//@   ghostparam gi int
+//@   requires n != nil
+//@   ensures[no-peers-no-address] r4CLoaded == nil ==> result == nil
+//   EVERY peer whose info is known is listed - the clause does not look at lp.state / lp.conn
+//@   ensures[every-known-peer-listed] r4CLoaded != nil ==> forall i int :: {unbox(r4CLoaded, "[]*lookupPeer")[i]} 0 <= i && i < len(unbox(r4CLoaded, "[]*lookupPeer")) && r4CKnown(unbox(r4CLoaded, "[]*lookupPeer")[i]) ==>
+//@        r4CListed(result, unbox(r4CLoaded, "[]*lookupPeer")[i])
+//   nothing else: every address returned is the address of a peer whose info is known; never more addresses than peers
+//@   ensures[only-known-peers] r4CLoaded != nil ==> forall j int :: {result[j]} 0 <= j && j < len(result) ==>
+//@        (exists i int :: {unbox(r4CLoaded, "[]*lookupPeer")[i]} 0 <= i && i < len(unbox(r4CLoaded, "[]*lookupPeer")) && r4CKnown(unbox(r4CLoaded, "[]*lookupPeer")[i]) && result[j] == r4CAddr(unbox(r4CLoaded, "[]*lookupPeer")[i]))
+//@   ensures[at-most-one-per-peer] r4CLoaded != nil ==> len(result) <= len(unbox(r4CLoaded, "[]*lookupPeer"))
+//   in the order of the peers, position by position, as far as the peers are known without a gap: if peers 0..gi are all known
+//   then the first gi+1 addresses are theirs (gi arbitrary); with [all-known-exact] below: the whole list when all are known
+//@   ensures[known-prefix-exact] r4CLoaded != nil && 0 <= gi && gi < len(unbox(r4CLoaded, "[]*lookupPeer")) && (forall i int :: {unbox(r4CLoaded, "[]*lookupPeer")[i]} 0 <= i && i <= gi ==> r4CKnown(unbox(r4CLoaded, "[]*lookupPeer")[i])) ==>
+//@        len(result) > gi && (forall i int :: {result[i]} 0 <= i && i <= gi ==> result[i] == r4CAddr(unbox(r4CLoaded, "[]*lookupPeer")[i]))
+//   when every peer is known the list is exactly the peers' addresses, position by position
+//@   ensures[all-known-exact] r4CLoaded != nil && (forall i int :: {unbox(r4CLoaded, "[]*lookupPeer")[i]} 0 <= i && i < len(unbox(r4CLoaded, "[]*lookupPeer")) ==> r4CKnown(unbox(r4CLoaded, "[]*lookupPeer")[i])) ==>
+//@        len(result) == len(unbox(r4CLoaded, "[]*lookupPeer")) && (forall i int :: {result[i]} 0 <= i && i < len(result) ==> result[i] == r4CAddr(unbox(r4CLoaded, "[]*lookupPeer")[i]))
+//@   ensures[fresh-list] result == nil || (len(result) == 0 && cap(result) == 0) || fresh(result)
+//@   modifies luAddrs
+//@   onreturn luAddrs := result
+//@   loop 0
+//@     invariant[loaded] lookupPeers == r4CLoaded && r4CPeersBox(lookupPeers) && lookupPeers != nil
+//@     invariant[own-list] (len(lookupHTTPAddrs) == 0 && cap(lookupHTTPAddrs) == 0) || fresh(lookupHTTPAddrs)
+//@     invariant[listed-so-far] forall i int :: {unbox(lookupPeers, "[]*lookupPeer")[i]} 0 <= i && i <= rangeindex && i < len(unbox(lookupPeers, "[]*lookupPeer")) && r4CKnown(unbox(lookupPeers, "[]*lookupPeer")[i]) ==>
+//@        r4CListed(lookupHTTPAddrs, unbox(lookupPeers, "[]*lookupPeer")[i])
+//@     invariant[only-known-so-far] forall j int :: {lookupHTTPAddrs[j]} 0 <= j && j < len(lookupHTTPAddrs) ==>
+//@        (exists i int :: {unbox(lookupPeers, "[]*lookupPeer")[i]} 0 <= i && i <= rangeindex && i < len(unbox(lookupPeers, "[]*lookupPeer")) && r4CKnown(unbox(lookupPeers, "[]*lookupPeer")[i]) && lookupHTTPAddrs[j] == r4CAddr(unbox(lookupPeers, "[]*lookupPeer")[i]))
+//@     invariant[count] len(lookupHTTPAddrs) <= rangeindex + 1 && rangeindex < len(unbox(lookupPeers, "[]*lookupPeer"))
+//@     invariant[prefix-exact-so-far] 0 <= gi && (forall i int :: {unbox(lookupPeers, "[]*lookupPeer")[i]} 0 <= i && i <= gi && i <= rangeindex && i < len(unbox(lookupPeers, "[]*lookupPeer")) ==> r4CKnown(unbox(lookupPeers, "[]*lookupPeer")[i])) ==>
+//@        (rangeindex <= gi ==> len(lookupHTTPAddrs) == rangeindex + 1) && (rangeindex > gi ==> len(lookupHTTPAddrs) > gi) && (forall i int :: {lookupHTTPAddrs[i]} 0 <= i && i <= gi && i <= rangeindex ==> lookupHTTPAddrs[i] == r4CAddr(unbox(lookupPeers, "[]*lookupPeer")[i]))
+//@     invariant[exact-so-far] (forall i int :: {unbox(lookupPeers, "[]*lookupPeer")[i]} 0 <= i && i <= rangeindex && i < len(unbox(lookupPeers, "[]*lookupPeer")) ==> r4CKnown(unbox(lookupPeers, "[]*lookupPeer")[i])) ==>
+//@        len(lookupHTTPAddrs) == rangeindex + 1 && (forall i int :: {lookupHTTPAddrs[i]} 0 <= i && i < len(lookupHTTPAddrs) ==> lookupHTTPAddrs[i] == r4CAddr(unbox(lookupPeers, "[]*lookupPeer")[i]))
+
+
+// ---------------------------------------------------------------------------------------------
+// lookupPeer: function-typed fields.
+//  * lookupPeer.logf is the daemon's log function (newLookupPeer is only called with n.logf): logging, no effect on modelled state.
+//@ benign fieldfunc:github.com/nsqio/nsq/nsqd.lookupPeer.logf
+//  * lookupPeer.connectCallback is the closure built by connectCallback(n, hostname) (the only call of newLookupPeer, in
+//    lookupLoop, passes exactly that). ASSUMED at the call in lookupPeer.Command: the contract that is VERIFIED for that closure
+//    below (`func connectCallback$1`): keep the two texts identical.
+//@ modset r4CPeerIOFrame := dialAddr, dialErr, wdlConn, wdlAt, writeArmed, ioConn, lastNow, wrLast, wrErr, rdlConn, rdlAt, readArmed, rfErr, rfLen, closedConn
+//   (peerInfo.*: json.Unmarshal(resp, &lp.Info) is modelled by the engine as writing the fields of the peerInfo object at the address
+//   &lp.Info - see ENGINE GAPS in the notes; lp.Info itself is listed as well, which is what callers need)
+//@ modset r4CCommandFrame := r4CPeerIOFrame, r4CCmdCalls, r4CBuiltCalls, peerInfo.TCPPort, peerInfo.HTTPPort, peerInfo.Version, peerInfo.BroadcastAddress, NSQD.topicMap, mapstore(map[string]*Topic), Topic.channelMap, mapstore(map[string]*Channel)
+//@ extern fieldfunc:github.com/nsqio/nsq/nsqd.lookupPeer.connectCallback(lp)
+//@   requires lp != nil && lp.conn != nil && lp.state == stateConnected
+//@   ensures[connected-or-closed] lp.state == stateConnected || lp.state == stateDisconnected
+//@   modifies lp.state, lp.Info, r4CCommandFrame
+
+// Records of the traffic to the lookup peers (set by the contracts of lookupPeer.Command / Close and of the go-nsq command constructors):
+//   r4CCmdCalls, r4CLastPeer, r4CLastCmd, r4CLastCmdErr - number of Command calls seen by this function, peer / command / error of the last;
+//   r4CCmdSawCloses - value of r4CCloses when that Command returned;  r4CSentSet - every command ever handed to Command;
+//   r4CCloses, r4CClosedSet - number of lookupPeer.Close calls, the peers closed.
+//@ ghost r4CCmdCalls int
+//@ ghost r4CLastPeer *lookupPeer
+//@ ghost r4CLastCmd *nsq.Command
+//@ ghost r4CLastCmdErr error
+//@ ghost r4CCmdSawCloses int
+//@ ghost r4CSentSet set[*nsq.Command]
+//@ ghostgroup r4CCmdCalls, r4CLastPeer, r4CLastCmd, r4CLastCmdErr, r4CCmdSawCloses, r4CSentSet
+//@ ghost r4CCloses int
+//@ ghost r4CClosedSet set[*lookupPeer]
+//@ ghostgroup closedConn, r4CCloses, r4CClosedSet
+
+// connectCallback's closure: runs on every (re)connect of a peer, right after the magic was written.
+// From C16 ("full re-registration of all topics/channels on every (re)connect", "converges ... after nsqlookupd restarts,
+// dropped connections and bad replies"):
+//  [connected-or-closed]       the peer is left connected or closed (never half-way);
+//  [nothing-sent-means-closed] if not even IDENTIFY could be sent the peer is closed and nothing was registered;
+//  [identify-first]            the first command sent is IDENTIFY (if exactly one command was sent, it is the IDENTIFY);
+//  [failure-leaves-closed]     a failed command leaves the peer not connected (Command closed it): the next heartbeat starts over;
+//  [all-built-sent]            if the peer is still connected at the end, every REGISTER command built was handed to it: the number of
+//                              commands sent is 1 + the number of REGISTERs built (loop 2: one per element of `commands`, in order);
+//  loop 0 [last-topic-complete] for each topic of the daemon, when its lock is released: a REGISTER(topic.name, "") was built if
+//                              it has no channel, else a REGISTER(channel.topicName, channel.name) for EVERY channel it has;
+//  loop 0/1 [queued]           every REGISTER built is appended to `commands` (counts agree), nothing else is.
+//@ func connectCallback$1(lp *lookupPeer)
+//@   props C16
+//@   requires lp != nil && lp.conn != nil && lp.state == stateConnected && n != nil
+//@   ensures[connected-or-closed] lp.state == stateConnected || lp.state == stateDisconnected
+//@   ensures[nothing-sent-means-closed] r4CCmdCalls == old(r4CCmdCalls) ==> lp.state == stateDisconnected && r4CBuiltCalls == old(r4CBuiltCalls)
+//@   ensures[identify-first] r4CCmdCalls == old(r4CCmdCalls) + 1 ==> r4CCmdKind(r4CLastCmd) == 4 && r4CLastPeer == lp
+//@   ensures[registers-only-after-identify-ok] r4CBuiltCalls > old(r4CBuiltCalls) ==> r4CCmdCalls > old(r4CCmdCalls)
+//@   ensures[failure-leaves-closed] r4CCmdCalls > old(r4CCmdCalls) && r4CLastCmdErr != nil ==> lp.state != stateConnected
+//@   ensures[all-built-sent] lp.state == stateConnected ==> r4CCmdCalls == old(r4CCmdCalls) + 1 + (r4CBuiltCalls - old(r4CBuiltCalls)) && r4CLastCmdErr == nil
+//@   modifies lp.state, lp.Info, r4CCommandFrame
+//@   loop 0
+//@     invariant[identified] lp.state == stateConnected && lp.conn != nil && r4CCmdCalls == old(r4CCmdCalls) + 1 && r4CLastCmdErr == nil && r4CLastPeer == lp && r4CCmdKind(r4CLastCmd) == 4
+//@     invariant[queued] len(commands) == r4CBuiltCalls - old(r4CBuiltCalls) && ((len(commands) == 0 && cap(commands) == 0) || fresh(commands))
+//@     invariant[registers] forall k int :: {commands[k]} 0 <= k && k < len(commands) ==> commands[k] != nil && r4CCmdKind(commands[k]) == 2
+//@     invariant[last-topic-complete] topic != nil ==> (atunlock(len(topic.channelMap), "RWMutex") == 0 ==> setin(r4CBuiltSet, r4CKey(topic.name, ""))) &&
+//@        (atunlock(len(topic.channelMap), "RWMutex") != 0 ==> forall ck string :: {atunlock(topic.channelMap[ck], "RWMutex")} atunlock(has(topic.channelMap, ck), "RWMutex") ==> setin(r4CBuiltSet, r4CKey(atunlock(topic.channelMap[ck], "RWMutex").topicName, atunlock(topic.channelMap[ck], "RWMutex").name)))
+//@   loop 1
+//@     invariant[identified] lp.state == stateConnected && lp.conn != nil && r4CCmdCalls == old(r4CCmdCalls) + 1 && r4CLastCmdErr == nil && r4CLastPeer == lp && r4CCmdKind(r4CLastCmd) == 4
+//@     invariant[queued] len(commands) == r4CBuiltCalls - old(r4CBuiltCalls) && ((len(commands) == 0 && cap(commands) == 0) || fresh(commands))
+//@     invariant[registers] forall k int :: {commands[k]} 0 <= k && k < len(commands) ==> commands[k] != nil && r4CCmdKind(commands[k]) == 2
+//@     invariant[topic-locked] topic != nil && topic.channelMap != nil
+//@     invariant[visited-built] forall ck string :: {topic.channelMap[ck]} visited(ck) ==> setin(r4CBuiltSet, r4CKey(topic.channelMap[ck].topicName, topic.channelMap[ck].name))
+//@   loop 2
+//@     invariant[one-command-per-element] r4CCmdCalls == old(r4CCmdCalls) + 1 + rangeindex + 1 && len(commands) == r4CBuiltCalls - old(r4CBuiltCalls)
+//@     invariant[still-connected] lp.state == stateConnected && lp.conn != nil && r4CLastCmdErr == nil && r4CLastPeer == lp
+//@     invariant[registers] forall k int :: {commands[k]} 0 <= k && k < len(commands) ==> commands[k] != nil && r4CCmdKind(commands[k]) == 2
+//@     invariant[sent-in-order] rangeindex < len(commands) && (rangeindex >= 0 ==> r4CLastCmd == commands[rangeindex]) && (rangeindex < 0 ==> r4CCmdKind(r4CLastCmd) == 4)
+//@     invariant[sent-so-far] forall k int :: {commands[k]} 0 <= k && k <= rangeindex && k < len(commands) ==> setin(r4CSentSet, commands[k])
+
+// connectCallback: only builds the closure above (which captures n and hostname): no effect.
+//@ func connectCallback(n *NSQD, hostname string) func(*lookupPeer)
+//@   props C16
+//@   nochan
+//@   requires n != nil
+//@   modifies
+
+// newLookupPeer: a new peer for addr: disconnected, without connection, IDENTIFY info not known (so lookupdHTTPAddrs does not
+// list it before its first successful IDENTIFY), the representation invariant of Command holds.
+//@ func newLookupPeer(addr string, maxBodySize int64, l lg.AppLogFunc, connectCallback func(*lookupPeer)) *lookupPeer
+//@   props C16
+//@   nochan
+//@   ensures[new-peer] result != nil && fresh(result) && result.addr == addr && result.maxBodySize == maxBodySize
+//@   ensures[disconnected] result.state == stateDisconnected && result.conn == nil
+//@   ensures[info-unknown] !r4CKnown(result) && result.Info.HTTPPort == 0 && result.Info.TCPPort == 0
+//@   modifies
+
+// String: the configured address.
+//@ func (lp *lookupPeer) String() string
+//@   props C16
+//@   nochan
+//@   requires lp != nil
+//@   ensures[address] result == lp.addr
+//@   modifies
+
+
+// ---------------------------------------------------------------------------------------------
+// lookupLoop. Values on notifyChan are the topic / channel objects handed to NSQD.Notify: never a nil *Topic / *Channel
+// (channel invariant: obligation at the send in Notify's goroutine, assumed at the receive here).
+//@ pred r4CNotifiable(v any) := (dyntype(v) == typetag("*Channel") ==> unbox(v, "*Channel") != nil) && (dyntype(v) == typetag("*Topic") ==> unbox(v, "*Topic") != nil)
+//@ chaninv NSQD.notifyChan(v) := r4CNotifiable(v)
+//@ pred r4CPeersOK(ps []*lookupPeer) := forall k int :: {ps[k]} 0 <= k && k < len(ps) ==> ps[k] != nil && (ps[k].state == stateConnected ==> ps[k].conn != nil)
+// r4CNotifyCmd(c, v): c is exactly the command C16 asks for when object v was announced ("incremental REGISTER/UNREGISTER decided from the
+// object's current exiting state"): UNREGISTER (kind 3) iff the object's exit flag is set, else REGISTER (kind 2), for (topicName, name) of a
+// channel resp. (name, "") of a topic.
+//@ pred r4CNotifyCmd(c *nsq.Command, v any) :=
+//@      (dyntype(v) == typetag("*Channel") ==> c != nil && r4CCmdKind(c) == (unbox(v, "*Channel").exitFlag == 1 ? 3 : 2) && r4CCmdTopic(c) == unbox(v, "*Channel").topicName && r4CCmdChan(c) == unbox(v, "*Channel").name) &&
+//@      (dyntype(v) == typetag("*Topic") ==> c != nil && r4CCmdKind(c) == (unbox(v, "*Topic").exitFlag == 1 ? 3 : 2) && r4CCmdTopic(c) == unbox(v, "*Topic").name && r4CCmdChan(c) == "")
+//@ func (n *NSQD) lookupLoop()
+//@   props C16
+//@   requires n != nil
+//@   loop 0
+//@     invariant[peers-usable] r4CPeersOK(lookupPeers)
+//@     invariant[ticker] ticker != nil
+//@   loop 1
+//@     invariant[peers-usable] r4CPeersOK(lookupPeers)
+//@     invariant[ticker] ticker != nil
+//@   loop 2
+//@     invariant[peers-usable] r4CPeersOK(lookupPeers)
+//@     invariant[ticker] ticker != nil
+//@     invariant[one-ping-per-peer] r4CCmdCalls == atloop(r4CCmdCalls) + rangeindex + 1 && rangeindex < len(lookupPeers)
+//@     invariant[ping-to-each-in-order] rangeindex >= 0 ==> r4CLastPeer == lookupPeers[rangeindex] && r4CCmdKind(r4CLastCmd) == 1
+//@   loop 3
+//@     invariant[peers-usable] r4CPeersOK(lookupPeers)
+//@     invariant[ticker] ticker != nil
+//@     invariant[one-command-per-peer] r4CCmdCalls == atloop(r4CCmdCalls) + rangeindex + 1 && rangeindex < len(lookupPeers)
+//@     invariant[same-command-to-each-in-order] rangeindex >= 0 ==> r4CLastPeer == lookupPeers[rangeindex] && r4CLastCmd == cmd
+//@     invariant[command-matches-object] r4CNotifyCmd(cmd, val)
+//@   loop 4
+//@     invariant[peers-usable] r4CPeersOK(lookupPeers) && r4CPeersOK(tmpPeers)
+//@     invariant[ticker] ticker != nil
